@@ -35,7 +35,16 @@ type DocPeer struct {
 	Timeout time.Duration `dials:"dial_timeout"`
 }
 
+// DocEmb is embedded in CfgDoc: JSON and Cue read an embedded struct's leaves
+// from the enclosing object, YAML and TOML from a table named after the type
+// unless the YAML decoder is told to flatten anonymous fields.
+type DocEmb struct {
+	EmbN int    `dials:"emb_n"`
+	EmbS string `dials:"emb_s"`
+}
+
 type CfgDoc struct {
+	DocEmb
 	Name     string                   `dials:"name"`
 	Count    int                      `dials:"count"`
 	Ratio    float64                  `dials:"ratio"`
@@ -80,6 +89,8 @@ type DocVal struct {
 	TimeoutNS map[string]int64 `json:"timeouts_ns"`          // likewise
 	EmptyTags bool             `json:"empty_tags,omitempty"` // tags: [] (present, empty)
 	EmptyNums bool             `json:"empty_nums,omitempty"`
+	EmbN      *int             `json:"emb_n,omitempty"`
+	EmbS      *string          `json:"emb_s,omitempty"`
 }
 
 type PeerVal struct {
@@ -97,7 +108,10 @@ type StreamSpec struct {
 	Format string `json:"format"` // the format the fault is applied to
 }
 
-var streamFormats = []string{"json", "yaml", "toml", "cue"}
+// yaml-flat: the YAML decoder with FlattenAnonymous set
+var streamFormats = []string{"json", "yaml", "toml", "cue", "yaml-flat"}
+
+func baseFormat(f string) string { return strings.TrimSuffix(f, "-flat") }
 
 func (g *gen) docVal(p int) DocVal {
 	n := int(g.id())
@@ -179,6 +193,12 @@ func (g *gen) docVal(p int) DocVal {
 			v.TimeoutNS[fmt.Sprintf("t%d", i)] = int64(n+i) * int64(time.Millisecond) * 100
 		}
 	}
+	if g.pct(p / 2) {
+		v.EmbN = ip(n*5 + 2)
+	}
+	if g.pct(p / 2) {
+		v.EmbS = sp(fmt.Sprintf("emb%d", n))
+	}
 	if v.Tags == nil && g.pct(10) {
 		v.Tags, v.EmptyTags = []string{}, true
 	}
@@ -209,7 +229,7 @@ func (g *gen) docVal(p int) DocVal {
 func genStream(seed uint64, faulty bool) *Scenario {
 	g := &gen{r: rand.New(rand.NewPCG(seed, 0x5eed5eed))}
 	sc := &Scenario{Prop: "C13", Seed: seed, Faulty: faulty}
-	st := &StreamSpec{Fault: "none", Format: streamFormats[g.r.IntN(4)]}
+	st := &StreamSpec{Fault: "none", Format: streamFormats[g.r.IntN(len(streamFormats))]}
 	st.Def = g.docVal(40)
 	st.Def.WaitAsInt = false
 	st.Val = g.docVal(55)
@@ -294,6 +314,12 @@ func (v *DocVal) expected(def *DocVal) *CfgDoc {
 		}
 		if l.Alt != nil {
 			c.Alt = *l.Alt
+		}
+		if l.EmbN != nil {
+			c.EmbN = *l.EmbN
+		}
+		if l.EmbS != nil {
+			c.EmbS = *l.EmbS
 		}
 		if l.WaitsNS != nil {
 			c.Waits = []time.Duration{}
@@ -454,7 +480,20 @@ func (v *DocVal) timeoutFields() []kv {
 }
 
 func (v *DocVal) renderDoc(format string) string {
+	var emb []kv
+	if v.EmbN != nil {
+		emb = append(emb, kv{"emb_n", strconv.Itoa(*v.EmbN)})
+	}
+	if v.EmbS != nil {
+		emb = append(emb, kv{"emb_s", strconv.Quote(*v.EmbS)})
+	}
+	embFlat := format == "json" || format == "cue" || format == "yaml-flat"
+	format = baseFormat(format)
 	top, limits, in, pin := v.fields(format)
+	if embFlat {
+		top = append(top, emb...)
+		emb = nil
+	}
 	peers := v.peerFields()
 	timeouts := v.timeoutFields()
 	var b strings.Builder
@@ -515,6 +554,9 @@ func (v *DocVal) renderDoc(format string) string {
 			}
 			fmt.Fprintf(&b, "peers: [%s]\n", strings.Join(items, ", "))
 		}
+		if len(emb) > 0 {
+			fmt.Fprintf(&b, "docemb: %s\n", obj(emb, ", ", "{", "}", ": ", false))
+		}
 	case "toml":
 		for _, e := range top {
 			fmt.Fprintf(&b, "%s = %s\n", e.k, e.v)
@@ -540,6 +582,12 @@ func (v *DocVal) renderDoc(format string) string {
 		if len(pin) > 0 {
 			b.WriteString("[p_in]\n")
 			for _, e := range pin {
+				fmt.Fprintf(&b, "%s = %s\n", e.k, e.v)
+			}
+		}
+		if len(emb) > 0 {
+			b.WriteString("[DocEmb]\n")
+			for _, e := range emb {
 				fmt.Fprintf(&b, "%s = %s\n", e.k, e.v)
 			}
 		}
@@ -575,6 +623,8 @@ func decoderFor(format string) dials.Decoder {
 		d = &jsondec2.Decoder{}
 	case "yaml":
 		d = &yamldec.Decoder{}
+	case "yaml-flat":
+		d = &yamldec.Decoder{FlattenAnonymous: true}
 	case "toml":
 		d = &tomldec.Decoder{}
 	case "cue":
@@ -691,7 +741,11 @@ func runStream(sc *Scenario, res *Result, keepLog bool) {
 	wantFP := render(want)
 	// fault-free: all four decoders agree with each other and with the generating value
 	clean := map[string]string{}
-	for _, f := range streamFormats {
+	// (in an order drawn from the run seed: no decoder's result may depend on
+	// which decoders, with which options, ran before it in the process)
+	order := append([]string(nil), streamFormats...)
+	rand.New(rand.NewPCG(sc.Seed, 0x0bde)).Shuffle(len(order), func(a, b int) { order[a], order[b] = order[b], order[a] })
+	for _, f := range order {
 		doc := st.Val.renderDoc(f)
 		clean[f] = doc
 		got, src, err := r.decodeVia(f, strings.NewReader(doc))
@@ -793,7 +847,7 @@ func runStream(sc *Scenario, res *Result, keepLog bool) {
 	res.Hash = mixU(h, hashStr(st.Fault+st.Format))
 	res.Steps = 1
 	res.Reason = "decoded"
-	r.probes["documents-decoded"] += 4
+	r.probes["documents-decoded"] += len(streamFormats)
 	for k, v := range r.probes {
 		res.Probes[k] += v
 	}
@@ -810,6 +864,7 @@ func mixU(h, x uint64) uint64 {
 
 // knownCorruption applies a single-token corruption whose verdict is known.
 func knownCorruption(format, class string, v *DocVal, doc string) (string, bool) {
+	format = baseFormat(format)
 	switch class {
 	case "unclosed":
 		switch format {
@@ -881,6 +936,7 @@ func (r *streamRun) checkUnset(format string, val reflect.Value, v *DocVal, doc 
 		"Name": v.Name == nil, "Count": v.Count == nil, "Ratio": v.Ratio == nil, "On": v.On == nil, "Wait": v.WaitNS == nil,
 		"When": v.When == nil, "Tags": v.Tags == nil, "Nums": v.Nums == nil, "Limits": v.Limits == nil, "Set": v.Set == nil,
 		"In": v.InHost == nil && v.InPort == nil, "PIn": v.PInHost == nil && v.PInPort == nil, "IP": v.IP == nil, "Peers": v.Peers == nil, "Alt": v.Alt == nil, "Waits": v.WaitsNS == nil, "Timeouts": v.TimeoutNS == nil,
+		"DocEmb": v.EmbN == nil && v.EmbS == nil,
 	}
 	names := make([]string, 0, len(want))
 	for n := range want {
